@@ -35,4 +35,21 @@ def getEntriesRespond (start count : Int) (treeSize : Nat) (leaves : List BLeaf)
   else if !indicesOk start leaves then (500, [])
   else (200, leaves.map fun l => (l.value, l.extra))
 
+/-- get-entry-and-proof: parameters as the handler parses them, then the checks on the reply; the served bytes are the
+backend leaf's `(LeafValue, ExtraData)` and the proof hashes, unmodified. `leaf = none` models an absent `Leaf`. -/
+def getEntryAndProofRequest (liS tsS : String) : Option (Int × Int) :=
+  match parseInt64 liS, parseInt64 tsS with
+  | some li, some ts => Gen.parseGetEntryAndProofParams li ts
+  | _, _ => none
+
+def getEntryAndProofRespond (ts : Int) (treeSize : Nat) (leaf : Option BLeaf) (proof : Option (List Bytes)) :
+    Nat × Option (Bytes × Bytes × List Bytes) :=
+  if (treeSize : Int) < U64.wrap ts then (400, none)
+  else match leaf, proof with
+    | some l, some p =>
+      if l.value.isEmpty then (500, none)
+      else if decide (ts > 1) && p.isEmpty then (500, none)
+      else (200, some (l.value, l.extra, p))
+    | _, _ => (500, none)
+
 end CTV.Model
